@@ -8,11 +8,13 @@ from .c01 import Spec, _rotmin
 
 PID = "C15"
 TITLE = "Border and feature extraction are exact"
-LEAN_MODULES = ["Mouette.Props.C15"]
+LEAN_MODULES = ["Mouette.Props.C15", "Mouette.Props.C15Border"]
 REQUIRED_THEOREMS = [
     "thresholds_bridge", "sharp_threshold_is_sixty_degrees", "hard_threshold_is_arccos", "cosLt_unit_iff", "cosLt_scale_invariant", "flagged_iff", "feature_set_exact", "feature_set_only_border",
     "feature_vertices_spec", "feature_degree_spec", "local_feat_spec",
     "indexMap_lookup", "indexMap_injective", "boundary_index_map_roundtrip", "walk_closed_lengths",
+    # round 2
+    "first_ring_neighbour", "border_cycle_correct", "border_cycles_all_correct", "borderWfB_sound",
 ]
 TRUSTED = [
     "Lean 4.33.0 kernel; axioms ⊆ {propext, Classical.choice, Quot.sound}",
@@ -227,6 +229,10 @@ def model_request(case):
 
 
 def compare(case, model, impl):
+    if case["t"] == "b":
+        wf, _, model = model.partition(" ## ")
+        if wf != "wf:1" and G.surface_stats(len(case["V"]), case["F"])["manifold"]:
+            return f"the hypotheses of border_cycle_correct (Oriented, InRange, BorderUmbrella) do not hold on a manifold input: {wf}"
     if model == impl: return None
     if case["t"] == "b":
         for name, a, b in zip(("cycles", "all cycles", "boundary polyline"), model.split(" || "), impl.split(" || ")):
@@ -602,10 +608,14 @@ MANIFEST = {
                    "interior ∧ cos < 4/5), only the border when only_border is set, with the thresholds read from the source by a "
                    "Python-ast translator and bridged to 1/2 and 4/5; cos < t is decided without square roots and proved equivalent to "
                    "d < t for unit normals; feature_vertices, feature_degrees and local_feat_edges are proved consistent with the edge "
-                   "set (for every mesh size); the polyline index map is proved to round-trip. Border walks (closed walk along border "
-                   "edges, each loop once, every start) are tied to the code by correspondence and a direct face-list oracle."),
+                   "set (for every mesh size); the polyline index map is proved to round-trip. border_cycle_correct: under the decidable "
+                   "hypotheses Oriented + indices in range + umbrella condition at the boundary vertices (evaluated by the driver on "
+                   "every generated surface), extract_border_cycle from ANY boundary vertex returns a repetition-free closed walk along "
+                   "border edges (ids = the returned edge list, members of boundary_edges) that covers the whole loop, and "
+                   "extract_border_cycle_all returns cycles partitioning the boundary vertices (each loop once); the walk's first step "
+                   "rests on the proved C01 ring_sorted (first ring neighbour = source of the entering border side)."),
     "level_note": ("Trusted: Lean kernel + propext/Classical.choice/Quot.sound; threshold translator; hand-written Border/Features "
-                   "models (sampled agreement); float vs exact rational comparison away from / exactly on thresholds; correctness of the "
-                   "border walk itself (border_cycle_correct) is correspondence/oracle-only, not a theorem."),
+                   "models (sampled agreement); float vs exact rational comparison away from / exactly on thresholds; the "
+                   "boundary polyline's edge set = border edges is correspondence/oracle-only (only the index map is proved)."),
     "technique": "Lean 4 proofs over an executable model + ast-translated thresholds; differential correspondence on generated surfaces with exact normals",
 }
